@@ -98,6 +98,10 @@ class DiameterAssociation(object):
         self.base = base
 
         self.state_is_active = False
+
+        #: Set by a stop requested before the connection is Open (the state
+        #: machine acts upon it as soon as it gets there).
+        self.stop_requested = False
         self.transport = None
         self.error_has_raised = False
         self._stop_threads = False
